@@ -343,6 +343,9 @@ func c08Alphabet() []Operand {
 	}
 	for _, neg := range []bool{false, true} {
 		out = append(out, DecJ{Form: ref.Inf, Neg: neg}.Op(), DecJ{Form: ref.Inf, Neg: neg, Coef: "99998", Exp: 11}.Op())
+		// dirty infinities whose left-over fields read as an odd integer / as a fraction (an overflowed 3.001 * 1 under a
+		// range with MaxExponent < 0 leaves exactly this behind): nothing may depend on those fields
+		out = append(out, DecJ{Form: ref.Inf, Neg: neg, Coef: "3", Exp: 0}.Op(), DecJ{Form: ref.Inf, Neg: neg, Coef: "3001", Exp: -3}.Op())
 		for _, ex := range []int32{-2001, -8, -1, 0, 1, 6, -3, 9, 10} {
 			out = append(out, Fin(0, ex, neg))
 		}
